@@ -82,13 +82,17 @@ func (c *c08ctx) toCoq(in []byte, kind string, h [32]byte) bool {
 		}
 		return structural && h[0]%6 == 0
 	}
+	// quick: the byte budget of the Coq shards is about 1.2 MB per check (Coq parses ~25 kB of numerals per second)
 	if len(in) > 20000 {
-		return structural && h[0]%6 == 0
+		return structural && h[0]%16 == 0
 	}
 	if len(in) > 1500 {
-		return structural && h[0]%3 == 0
+		return structural && h[0]%8 == 0
 	}
-	return structural || h[0]%3 == 0
+	if len(in) > 300 {
+		return (structural && h[0]%2 == 0) || h[0]%10 == 0
+	}
+	return structural || h[0]%4 == 0
 }
 
 func (c *c08ctx) eval(in []byte, kind string, desc interface{}) {
@@ -165,7 +169,7 @@ func clipS(s string, n int) string {
 func c08Codec(run *Run, cd *codecDef) {
 	r := run.R
 	c := &c08ctx{run: run, cd: cd, sh: run.NewShard(cd.Header, cd.CaseType, cd.Eval), seen: map[[32]byte]bool{}}
-	nbase := run.N(8, 40)
+	nbase := run.N(5, 40)
 	for i := 0; i < nbase; i++ {
 		big := i%4 == 3
 		vf := cd.Gen(r, big)
@@ -245,7 +249,7 @@ func c08Codec(run *Run, cd *codecDef) {
 		}
 	}
 	// random bytes
-	nrand := run.N(150, 3000)
+	nrand := run.N(100, 3000)
 	for i := 0; i < nrand; i++ {
 		b := r.Bytes(r.Intn(90))
 		if cd.RandHead != nil && r.Pct(70) {
